@@ -8,7 +8,7 @@
 //	{"e":"wait","ok":b}                           the limiter's Wait was called (and what it answered)
 //	{"e":"get","method","host","path","query"}    the server received a request
 //	{"e":"resp","status","body"}                  the server answered (echo of the script)
-//	{"e":"ret","errtype","limerr","code","notfound","els"}   what the call returned
+//	{"e":"ret","errtype","limerr","code","notfound","els","zero"}   what the call returned (zero: nil / zero value)
 //
 // No expected values and no endpoint table live here: only the symbol maps endpoint name -> Go function,
 // element kind -> XML snippet, returned Go values -> abstract element list.
@@ -18,6 +18,7 @@ import (
 	"context"
 	"encoding/json"
 	"errors"
+	"reflect"
 	"fmt"
 	"math"
 	"net"
@@ -570,7 +571,7 @@ func main() {
 			vio.Must(fmt.Errorf("unknown via %q", c.Via), "case")
 		}
 
-		ret := Event{"e": "ret", "errtype": "", "limerr": false, "code": 0, "notfound": false, "els": []El{}}
+		ret := Event{"e": "ret", "errtype": "", "limerr": false, "code": 0, "notfound": false, "els": []El{}, "zero": true}
 		func() {
 			defer func() {
 				if p := recover(); p != nil {
@@ -580,6 +581,9 @@ func main() {
 			}()
 			v, err := call(&c, ds)
 			ret["els"] = flat(v)
+			// is the returned value the zero value of its type (nil pointer, nil slice)?
+			rv := reflect.ValueOf(v)
+			ret["zero"] = !rv.IsValid() || rv.IsZero()
 			ret["notfound"] = ds.NotFound(err)
 			if err != nil {
 				ret["errtype"] = fmt.Sprintf("%T", err)
